@@ -17,6 +17,16 @@ def build(spec, scratch):
     tree = os.path.join(scratch, "repo")
     subprocess.check_call(["rsync", "-a", "--exclude", ".git", REPO + "/", tree + "/"])
     diffs = []
+    if "revert" in spec:
+        # the mutant is the exact reverse of a fix: commit of /repo (re-introduces the original defect)
+        patch = subprocess.run(["git", "-C", REPO, "diff", spec["revert"], spec["revert"] + "^"], capture_output=True, text=True, check=True).stdout
+        r = subprocess.run(["patch", "-p1", "-s", "-f", "--no-backup-if-mismatch"], cwd=tree, input=patch, capture_output=True, text=True)
+        if r.returncode != 0:
+            raise SystemExit("%s: reverse of %s does not apply: %s" % (spec["id"], spec["revert"], r.stdout + r.stderr))
+        r = subprocess.run(["go", "build", "./..."], cwd=tree, env=ENV, capture_output=True, text=True)
+        if r.returncode != 0:
+            raise SystemExit("%s does not compile:\n%s" % (spec["id"], r.stdout + r.stderr))
+        return patch
     for (f, old, new) in spec["edits"]:
         path = os.path.join(tree, f)
         src = open(path).read()
